@@ -181,6 +181,20 @@ func bucket(n int) int {
 func mapLoop(g *sgen.G, d int) *gen.Node {
 	g.Feat["for-in-map-multikey"] = true
 	m := gen.NMap(gen.NStr("k"), gen.NInt(2), gen.NStr("é"), gen.NInt(5), gen.NStr("z"), gen.NInt(-1))
+	switch rapid.IntRange(0, 3).Draw(g.T, "mapnest") {
+	case 0:
+		// a map loop inside a map loop: every outer pass sees its own key in every inner pass
+		g.Feat["for-in-map-nested"] = true
+		m2 := gen.NMap(gen.NStr("yy"), gen.NInt(1), gen.NStr("xx"), gen.NInt(2))
+		return gen.NForIn("mk", m, []*gen.Node{gen.NCall("probe", gen.NStr("outer"), id("mk")),
+			gen.NForIn("mk2", m2, []*gen.Node{gen.NCall("probe", gen.NStr("inner"), id("mk"), id("mk2"))}), gen.NCall("probe", gen.NStr("outer-after-inner"), id("mk"))})
+	case 1:
+		// both loops over the same map value, the inner one under a list loop
+		g.Feat["for-in-map-nested"] = true
+		return gen.NIf([]*gen.Node{gen.NBool(true)}, [][]*gen.Node{{gen.NSet("mm", m), gen.NForIn("mk", id("mm"), []*gen.Node{
+			gen.NForIn("li", gen.NList(gen.NInt(1), gen.NInt(2)), []*gen.Node{gen.NForIn("mk2", id("mm"), []*gen.Node{gen.NCall("probe", gen.NStr("pair"), id("mk"), id("li"), id("mk2"))})}),
+			gen.NCall("probe", gen.NStr("outer-end"), id("mk"))})}}, nil, false)
+	}
 	return gen.NForIn("mk", m, []*gen.Node{gen.NCall("probe", gen.NStr("mapkey"), id("mk"))})
 }
 
@@ -492,6 +506,43 @@ func minInt(a, b int) int {
 		return a
 	}
 	return b
+}
+
+// TestLoopClauseScope: the loop clause of a three-clause for runs in the scope of the for statement, not in the
+// body's: a name it creates lives until the loop ends (later passes and later clause runs see it), a name the
+// body created is gone when the clause runs, a name that only exists as a point key is read from the point once.
+func TestLoopClauseScope(t *testing.T) {
+	inc := func(v string) *gen.Node { return gen.NSet(v, gen.NBin("+", id(v), gen.NInt(1))) }
+	pr := func(l string, vs ...string) *gen.Node {
+		a := []*gen.Node{gen.NStr(l)}
+		for _, v := range vs {
+			a = append(a, id(v))
+		}
+		return gen.NCall("probe", a...)
+	}
+	type tc struct {
+		name   string
+		fields map[string]any
+		prog   []*gen.Node
+	}
+	cases := []tc{
+		{"clause-creates-name", nil, []*gen.Node{gen.NFor(gen.NSet("i", gen.NInt(0)), gen.NBin("<", id("i"), gen.NInt(4)), gen.NSet("n", gen.NBin("*", id("i"), gen.NInt(10))), []*gen.Node{pr("body", "i", "n"), inc("i")}), pr("after", "i", "n")}},
+		{"clause-accumulates-new-name", nil, []*gen.Node{gen.NFor(gen.NSet("i", gen.NInt(0)), gen.NBin("<", id("i"), gen.NInt(4)), gen.NSet("acc", gen.NBin("+", gen.NCall("len", id("acc")), id("i"))), []*gen.Node{pr("body", "i", "acc"), inc("i")}), pr("after", "acc")}},
+		{"clause-updates-point-key", map[string]any{"total": int64(100)}, []*gen.Node{gen.NFor(gen.NSet("i", gen.NInt(0)), gen.NBin("<", id("i"), gen.NInt(4)), gen.NSet("total", gen.NBin("+", id("total"), id("i"))), []*gen.Node{pr("body", "i", "total"), inc("i")}), pr("after", "total"), gen.NCall("add_key", id("seen"), id("total"))}},
+		{"clause-compound-on-point-key", map[string]any{"total": int64(100)}, []*gen.Node{gen.NFor(gen.NSet("i", gen.NInt(0)), gen.NBin("<", id("i"), gen.NInt(4)), gen.NAssign("+=", []*gen.Node{id("total")}, []*gen.Node{id("i")}), []*gen.Node{pr("body", "i", "total"), inc("i")}), pr("after", "total")}},
+		{"clause-reads-body-local", nil, []*gen.Node{gen.NFor(gen.NSet("i", gen.NInt(0)), gen.NBin("<", id("i"), gen.NInt(6)), gen.NSet("i", gen.NBin("+", gen.NBin("+", id("i"), gen.NInt(1)), gen.NCall("len", id("tmp")))), []*gen.Node{gen.NSet("tmp", gen.NStr("xx")), pr("body", "i", "tmp")}), pr("after", "i")}},
+		{"clause-reads-body-local-shadowing-key", map[string]any{"tmp": "k"}, []*gen.Node{gen.NFor(gen.NSet("i", gen.NInt(0)), gen.NBin("<", id("i"), gen.NInt(6)), gen.NSet("i", gen.NBin("+", gen.NBin("+", id("i"), gen.NInt(1)), gen.NCall("len", id("tmp")))), []*gen.Node{pr("before", "i", "tmp"), gen.NSet("tmp", gen.NStr("xxx")), pr("body", "i", "tmp")}), pr("after", "i", "tmp")}},
+		{"cond-reads-clause-name", nil, []*gen.Node{gen.NSet("i", gen.NInt(0)), gen.NFor(nil, gen.NBin("!=", id("stop"), gen.NBool(true)), gen.NSet("stop", gen.NBin(">=", id("i"), gen.NInt(3))), []*gen.Node{inc("i"), pr("body", "i", "stop")}), pr("after", "i", "stop")}},
+		{"init-name-visible-in-clause-and-body", nil, []*gen.Node{gen.NFor(gen.NSet("j", gen.NInt(5)), gen.NBin(">", id("j"), gen.NInt(2)), gen.NSet("j", gen.NBin("-", id("j"), gen.NInt(1))), []*gen.Node{pr("body", "j"), gen.NSet("j2", id("j"))}), pr("after", "j", "j2")}},
+		{"nested-inner-clause-creates-name", nil, []*gen.Node{gen.NForIn("o", gen.NList(gen.NInt(1), gen.NInt(2)), []*gen.Node{gen.NFor(gen.NSet("i", gen.NInt(0)), gen.NBin("<", id("i"), gen.NInt(2)), gen.NSet("m", gen.NBin("+", id("o"), id("i"))), []*gen.Node{pr("inner", "o", "i", "m"), inc("i")}), pr("outer", "o", "m")})}},
+		{"clause-with-continue-in-body", nil, []*gen.Node{gen.NFor(gen.NSet("i", gen.NInt(0)), gen.NBin("<", id("i"), gen.NInt(4)), gen.NSet("c", gen.NBin("+", gen.NCall("len", id("c")), gen.NInt(1))), []*gen.Node{inc("i"), gen.NIf([]*gen.Node{gen.NBin("==", id("i"), gen.NInt(2))}, [][]*gen.Node{{gen.NContinue()}}, nil, false), pr("body", "i", "c")}), pr("after", "c")}},
+	}
+	for _, c := range cases {
+		cs := sem.NewCase(gen.FixAll(c.prog))
+		cs.Fields = c.fields
+		judge(t, "clause-scope", cs, true, "loop-clause-scope/"+c.name)
+	}
+	evid.Exhaustive("loop clause scope cases", len(cases))
 }
 
 // TestEmptyBranchTable: a truthy branch with an empty block still ends the statement.
